@@ -231,8 +231,8 @@ class SpecEnv:
             "implies": lambda a, b: (not a) or b, "iff": lambda a, b: bool(a) == bool(b),
             "wf_map": lambda m: True, "keys_of": lambda m: list(m.keys()),
             "ite": lambda c, a, b: a if c else b, "allocated": lambda o: True,
-            "str_is_int": _str_is_int, "str_int": lambda s: int(s), "with_field": _with_field,
-            "__snap": self.snapshot,
+            "str_is_int": _str_is_int, "str_int": lambda s: int(s), "with_field": _with_field, "let": lambda v, fn: fn(v),
+            "__snap": self.snapshot, "__unsnap": getattr(self, "unsnap", lambda v: v),
         }
         for cname in ("TestNode", "TestWorker", "TestSwarm", "TestObject", "NetObject", "VMObject", "ImageObject",
                       "EdgeRegister", "Params"):
@@ -281,7 +281,9 @@ class OldRewriter(ast.NodeTransformer):
                                      ast.Subscript(value=ast.Name(id="__snap", ctx=ast.Load()), slice=ast.Constant(p), ctx=ast.Load())
                                      for p in self.pnames])
             lam = ast.Lambda(args=args, body=node.args[0])
-            return ast.Call(func=lam, args=[], keywords=[])
+            call = ast.Call(func=lam, args=[], keywords=[])
+            # objects of the snapshot are translated back to the live objects they are copies of (identity)
+            return ast.Call(func=ast.Name(id="__unsnap", ctx=ast.Load()), args=[call], keywords=[])
         return node
 
 
@@ -314,8 +316,48 @@ def replay(w, repo):
     with contextlib.ExitStack() as stack:
         install_stubs(b, w, stack)
         pnames = list(params.keys())
-        snapshot = copy.deepcopy(params)
+        memo = {}
+        snapshot = copy.deepcopy(params, memo)
+        back = {}
+        keep = []
+        for oid, cp in memo.items():
+            if isinstance(cp, (int, str, float, bool, type(None))):
+                continue
+            back[id(cp)] = oid
+        live = {}
+
+        def index(o, depth=0):
+            if id(o) in live or depth > 8 or isinstance(o, (int, str, float, bool, type(None))):
+                return
+            live[id(o)] = o
+            if isinstance(o, dict):
+                for k, v in o.items():
+                    index(k, depth + 1)
+                    index(v, depth + 1)
+            elif isinstance(o, (list, tuple, set)):
+                for v in o:
+                    index(v, depth + 1)
+            elif hasattr(o, "__dict__"):
+                for v in list(o.__dict__.values()):
+                    index(v, depth + 1)
+        index(params)
+        for o in b.objs.values():
+            index(o)
+
+        def unsnap(v):
+            if isinstance(v, (int, str, float, bool, type(None))):
+                return v
+            if id(v) in back and back[id(v)] in live and not isinstance(v, (list, dict, set, tuple)):
+                return live[back[id(v)]]
+            if isinstance(v, list):
+                return [unsnap(x) for x in v]
+            if isinstance(v, tuple):
+                return tuple(unsnap(x) for x in v)
+            if isinstance(v, set):
+                return {unsnap(x) for x in v}
+            return v
         env0 = SpecEnv(b, uni, params, snapshot)
+        env0.unsnap = unsnap
         for r in w.get("requires", []):
             try:
                 if not spec_eval(r, env0.names(), pnames):
@@ -344,6 +386,7 @@ def replay(w, repo):
             outcome, exc = "raise", e
         verdict["outcome"] = outcome if outcome == "return" else f"raise {type(exc).__name__}: {exc}"
         env = SpecEnv(b, uni, dict(params, result=result), snapshot)
+        env.unsnap = unsnap
         names = env.names()
         if outcome == "return":
             try:
